@@ -286,6 +286,26 @@ def serialCase (timed : Bool) (m : Msg) (rd : List REvent) (wr : List WEvent) : 
   let (evs, res, p) := serialStep m ⟨rd, wr⟩
   showPortEvents timed evs ++ " => " ++ showBusResult res ++ " rest=" ++ toHex (remainingBytes p.rd)
 
+/-- Several exchanges on one bus object: the port (what is left to read, the write script) is threaded
+    through `serialStep`; nothing else survives from one exchange to the next.  Timed: `G:30` after a
+    completed data-chunk write when another message follows (the pause is owed before the NEXT write),
+    `S:100` after the read of an in-progress report. -/
+def serialMultiCase (timed : Bool) (ms : List Msg) (rd : List REvent) (wr : List WEvent) : String := Id.run do
+  let mut port : Port := ⟨rd, wr⟩
+  let mut parts : Array String := #[]
+  let mut rest := ms
+  for m in ms do
+    rest := rest.drop 1
+    let (evs, res, p) := serialStep m port
+    port := p
+    let hasNext := !rest.isEmpty
+    let toks := evs.filterMap fun e => match e with
+      | .wrote bs ok => some s!"W:{toHex bs}:{if ok then 1 else 0}"
+      | .readLine => some "R"
+      | .sleep ms => if !timed then none else if ms == 30 then (if hasNext then some "G:30" else none) else some s!"S:{ms}"
+    parts := parts.push (String.intercalate " " toks ++ " => " ++ showBusResult res)
+  return String.intercalate " ; " parts.toList ++ " rest=" ++ toHex (remainingBytes port.rd)
+
 def showOdk : OdkResult → String
   | .ok => "ok"
   | .comm => "comm"
@@ -455,6 +475,14 @@ def handle (line : String) : String :=
   | "serialt" :: m :: "|" :: rest => orBad do
       match splitBar rest with
       | [rd, wr] => pure (serialCase true (← parseMsg m) (← parseREvents rd) (← parseWEvents wr))
+      | _ => none
+  | "serialm" :: rest => orBad do
+      match splitBar rest with
+      | [ms, rd, wr] => pure (serialMultiCase false (← ms.mapM parseMsg) (← parseREvents rd) (← parseWEvents wr))
+      | _ => none
+  | "serialmt" :: rest => orBad do
+      match splitBar rest with
+      | [ms, rd, wr] => pure (serialMultiCase true (← ms.mapM parseMsg) (← parseREvents rd) (← parseWEvents wr))
       | _ => none
   | "serialts" :: _wms :: _rms :: m :: "|" :: rest => orBad do
       -- slow port: the latencies are inside the write / read calls; the model's event sequence
